@@ -19,8 +19,8 @@ RULE = (
     "sample or condition that is absent from this stage's rows"
 )
 ASSUMPTIONS = ["the lineage root is the screen handed to the hold-out split (what prepare_retrospective_simulation saves)"]
-REQUIRED = {"stages_checked": {"quick": 1500, "thorough": 25000}, "stages_with_holdout_only_conditions": {"quick": 300, "thorough": 5000}, "prediction_comparisons": {"quick": 1000, "thorough": 15000}, "cli_stages": {"quick": 50, "thorough": 800}}
-N_LIN = {"quick": 320, "thorough": 4800}
+REQUIRED = {"stages_checked": {"quick": 6000, "thorough": 60000}, "stages_with_holdout_only_conditions": {"quick": 3000, "thorough": 30000}, "prediction_comparisons": {"quick": 50000, "thorough": 500000}, "cli_stages": {"quick": 400, "thorough": 4000}}
+N_LIN = {"quick": 640, "thorough": 6400}
 
 
 def root_maps(root):
